@@ -351,12 +351,19 @@ package interpreter
 //@   ensures value != nil && result == nil && typeis(expectedType, ArrayType) ==> typeis(value, []interface{}) && (expectedType.(ArrayType).ElementType != nil ==> forall(j, 0, len(value.([]interface{})), checkOK(value.([]interface{})[j], expectedType.(ArrayType).ElementType)))
 //@   ensures value != nil && result == nil && isListG(expectedType) && len(expectedType.(GenericType).TypeArgs) == 1 && expectedType.(GenericType).TypeArgs[0] != nil ==> typeis(value, []interface{}) && forall(j, 0, len(value.([]interface{})), checkOK(value.([]interface{})[j], expectedType.(GenericType).TypeArgs[0]))
 //@   ensures value != nil && result == nil && typeis(expectedType, NamedType) && !svcName(expectedType.(NamedType).Name) && expectedType.(NamedType).Name != "List" && has(tc.typeDefs, expectedType.(NamedType).Name) ==> typeis(value, map[string]interface{}) && reqOK(value.(map[string]interface{}), tc.typeDefs[expectedType.(NamedType).Name]) && forall(n, string, has(value.(map[string]interface{}), n) ==> fieldOK(value.(map[string]interface{}), tc.typeDefs[expectedType.(NamedType).Name], n))
+// completeness ("conforming requests are never rejected"), same one-level reading: a list whose elements are all accepted is
+// accepted, a non-list is not; an object that has the required fields and whose declared fields are accepted under every
+// declaration of their name is accepted by a named type with a definition
+//@   ensures value != nil && typeis(expectedType, ArrayType) ==> (result == nil) == (typeis(value, []interface{}) && (expectedType.(ArrayType).ElementType != nil ==> forall(j, 0, len(value.([]interface{})), checkOK(value.([]interface{})[j], expectedType.(ArrayType).ElementType))))
+//@   ensures value != nil && isListG(expectedType) && len(expectedType.(GenericType).TypeArgs) == 1 && expectedType.(GenericType).TypeArgs[0] != nil ==> (result == nil) == (typeis(value, []interface{}) && forall(j, 0, len(value.([]interface{})), checkOK(value.([]interface{})[j], expectedType.(GenericType).TypeArgs[0])))
+//@   ensures value != nil && typeis(value, map[string]interface{}) && typeis(expectedType, NamedType) && !svcName(expectedType.(NamedType).Name) && has(tc.typeDefs, expectedType.(NamedType).Name) && reqOK(value.(map[string]interface{}), tc.typeDefs[expectedType.(NamedType).Name]) && forall(n, string, has(value.(map[string]interface{}), n) ==> fieldAllOK(value.(map[string]interface{}), tc.typeDefs[expectedType.(NamedType).Name], n)) ==> result == nil
 //@   loop 1 invariant 0 <= rangeidx && forall(k, 0, rangeidx, !checkOK(value, expectedType.(UnionType).Types[k]))
 //@   loop 2 invariant 0 <= rangeidx && forall(j, 0, rangeidx, checkOK(value.([]interface{})[j], local(elementType)))
 //@   summary (result == nil) == checkOK(value, expectedType)
 // fieldOK(obj, td, n): the field n of the object either is not declared by td (extra fields are allowed) or is accepted by
 // the type a declaration of that name gives it
 //@ spec func fieldOK(obj map[string]interface{}, td ast.TypeDef, n string) bool = forall(k, 0, len(td.Fields), td.Fields[k].Name != n) || exists(k, 0, len(td.Fields), td.Fields[k].Name == n && checkOK(obj[n], td.Fields[k].TypeAnnotation))
+//@ spec func fieldAllOK(obj map[string]interface{}, td ast.TypeDef, n string) bool = forall(k, 0, len(td.Fields), td.Fields[k].Name == n ==> checkOK(obj[n], td.Fields[k].TypeAnnotation))
 //@ func (*TypeChecker).ValidateObjectAgainstTypeDef
 //@   modifies nothing
 //@   loop 1 invariant 0 <= rangeidx && forall(k, 0, rangeidx, typeDef.Fields[k].Required && typeDef.Fields[k].Default == nil ==> has(obj, typeDef.Fields[k].Name) && obj[typeDef.Fields[k].Name] != nil)
@@ -365,6 +372,7 @@ package interpreter
 //@   assertat "if err := tc.CheckType(fieldValue, fieldDef.TypeAnnotation); err != nil {" fieldValue == obj[fieldName] && exists(k, 0, len(typeDef.Fields), typeDef.Fields[k].Name == fieldName && fieldDef.TypeAnnotation == typeDef.Fields[k].TypeAnnotation)
 //@   ensures result == nil ==> reqOK(obj, typeDef)
 //@   ensures result == nil ==> forall(n, string, has(obj, n) ==> fieldOK(obj, typeDef, n))
+//@   ensures reqOK(obj, typeDef) && forall(n, string, has(obj, n) ==> fieldAllOK(obj, typeDef, n)) ==> result == nil
 // (syntax-tree nodes are never written after the parser has built them: structural scan types-frozen)
 //@ decl frozen ast.Field
 // defaults are applied exactly to absent fields: the result is a new object that keeps every field of
